@@ -25,8 +25,8 @@ def d1_mirror(f):
 
 # ---------------------------------------------------------------- D2 who-may-write + a != b
 
-def d2_writes(f):
-    """mutations rooted at `self` other than being the receiver of row_add"""
+def d2_writes(f, facts=None, depth=0):
+    """mutations rooted at `self` other than being the receiver of row_add (private helper methods of Mat2 called on self are followed)"""
     sid = _param_ids(f).get('self')
     pm = hir.parent_map(f['hir'])
     bad = []
@@ -36,8 +36,13 @@ def d2_writes(f):
             continue
         if kind == 'autoref-mut' and not p[2]:
             par = pm.get(id(node))
-            if par and par[0].get('k') == 'MethodCall' and par[1] == 'recv' and par[0]['name'] == 'row_add':
-                continue
+            if par and par[0].get('k') == 'MethodCall' and par[1] == 'recv':
+                if par[0]['name'] == 'row_add':
+                    continue
+                callee = par[0].get('callee') or ''
+                if facts is not None and callee in facts['fns'] and callee.startswith('linalg::Mat2::') and depth < 2:
+                    bad += [('in helper %s: %s' % (callee.rsplit('::', 1)[1], k2), n2) for k2, n2 in d2_writes(facts['fns'][callee], facts, depth + 1)]
+                    continue
         bad.append((kind, node))
     return bad
 
@@ -122,45 +127,72 @@ def neq_justification(f, call, pm):
 # ---------------------------------------------------------------- D3 inverse, row/col, Mul
 
 def d3_inverse(f):
-    """paths returning Some(..): must be under square test and rank test; the value is the proxy of a full reduction of a clone"""
+    """paths returning Some(..): must be under the square test and the full-rank test; the value is the proxy of a full reduction of a clone.
+    Returns ([(ok | None, path, why)], n_some)."""
     res = []
     ps = paths.return_paths(f)
     somes = 0
     for p in ps:
         r = hir.strip(p.ret) if p.ret else None
-        if r is None or hir.ctor_call(r, 'Some') is None:
+        if r is None or r.get('k') != 'Call' or hir.ctor_call(r, 'Some') is None:
             continue
         somes += 1
         val = r['args'][0]
-        conds = p.conds
-        sq = False
-        rk = False
-        for c in conds:
+        env = p.env
+
+        def init_of(e, depth=0):
+            e = hir.strip(e)
+            l = hir.local(e)
+            if l and l[1] in env and isinstance(env[l[1]], dict) and depth < 4:
+                return init_of(env[l[1]], depth + 1)
+            return e
+
+        def kind(e):
+            e0 = init_of(e)
+            if e0.get('k') == 'MethodCall' and e0['name'] in ('num_rows', 'num_cols') and hir.local_name(e0['recv']) == 'self':
+                return e0['name']
+            if e0.get('k') == 'MethodCall' and (hir.callee(e0) or '') == GAUSS:
+                return 'rank'
+            return None
+        sq = None
+        rk = None
+        unknown = []
+        gauss = None
+        for c in p.conds:
             if c[0] != 'cond':
+                if c[0] in ('pat', 'nopat'):
+                    unknown.append(hir.pp(c[2])[:30])
                 continue
             e, pol = hir.strip(c[1]), c[2]
-            if e.get('k') == 'Binary':
-                names = sorted(x['name'] for x in (hir.strip(e['l']), hir.strip(e['r'])) if x.get('k') == 'MethodCall')
-                if names == ['num_cols', 'num_rows'] and ((e['op'] == 'Ne' and not pol) or (e['op'] == 'Eq' and pol)):
-                    sq = True
-                # rank test: rank < rows false / rank == rows true / rank >= rows true
-                l, rr = hir.strip(e['l']), hir.strip(e['r'])
-                ll = hir.local(l)
-                if ll and ll[1] in p.env and rr.get('k') == 'MethodCall' and rr['name'] in ('num_rows', 'num_cols'):
-                    init = hir.strip(p.env[ll[1]]) if isinstance(p.env[ll[1]], dict) else None
-                    if init is not None and init.get('k') == 'MethodCall' and (hir.callee(init) or '') == GAUSS:
-                        if (e['op'] == 'Lt' and not pol) or (e['op'] in ('Eq', 'Ge') and pol):
-                            full = hir.lit_bool(init['args'][0])
-                            proxy = hir.local(init['args'][2])
-                            vl = hir.local(val)
-                            recv = hir.local(init['recv'])
-                            recv_init = hir.strip(p.env.get(recv[1])) if recv and isinstance(p.env.get(recv[1]), dict) else None
-                            recv_is_clone = recv_init is not None and hir.local_name(recv_init) == 'self'
-                            vinit = p.env.get(vl[1]) if vl else None
-                            vinit = hir.strip(vinit) if isinstance(vinit, dict) else None
-                            is_id = vinit is not None and vinit.get('k') == 'Call' and (hir.callee(vinit) or '') == 'linalg::Mat2::id'
-                            rk = bool(full and proxy and vl and proxy[1] == vl[1] and recv_is_clone and is_id)
-        res.append((sq and rk, p, 'Some(..) is returned without %s' % ('the square test' if not sq else 'rank == rows of a full reduction of a clone whose row operations were applied to the identity')))
+            if e.get('k') == 'Binary' and e['op'] in ('Eq', 'Ne', 'Lt', 'Le', 'Gt', 'Ge'):
+                kl, kr = kind(e['l']), kind(e['r'])
+                ks = {kl, kr}
+                if ks == {'num_rows', 'num_cols'}:
+                    sq = (e['op'] == 'Eq') == pol if e['op'] in ('Eq', 'Ne') else sq
+                    continue
+                if 'rank' in ks and (ks & {'num_rows', 'num_cols'}):
+                    op = e['op'] if kl == 'rank' else {'Lt': 'Gt', 'Le': 'Ge', 'Gt': 'Lt', 'Ge': 'Le', 'Eq': 'Eq', 'Ne': 'Ne'}[e['op']]
+                    full = (op in ('Ge', 'Eq') and pol) or (op in ('Lt', 'Ne') and not pol)
+                    rk = full
+                    gauss = init_of(e['l'] if kl == 'rank' else e['r'])
+                    continue
+            unknown.append(hir.pp(e)[:30])
+        prov = None
+        if gauss is not None:
+            full = hir.lit_bool(gauss['args'][0])
+            proxy = hir.local(gauss['args'][2])
+            vl = hir.local(val)
+            recv_init = init_of(gauss['recv'])
+            recv_is_clone = hir.local_name(recv_init) == 'self' or (recv_init.get('k') == 'MethodCall' and recv_init['name'] == 'clone')
+            vinit = init_of(val)
+            is_id = vinit.get('k') == 'Call' and (hir.callee(vinit) or '') == 'linalg::Mat2::id'
+            prov = bool(full and proxy and vl and proxy[1] == vl[1] and recv_is_clone and is_id)
+        if sq and rk and prov:
+            res.append((True, p, ''))
+        elif unknown and (sq is None or rk is None):
+            res.append((None, p, 'a path returning Some(..) is conditioned on tests the rule does not understand (%s)' % ', '.join(unknown[:3])))
+        else:
+            res.append((False, p, 'Some(..) is returned without %s' % ('the square test' if not sq else 'rank == rows of a full reduction of a clone whose row operations were applied to the identity')))
     return res, somes
 
 
@@ -604,7 +636,7 @@ def run(ck):
     for i, (ok, node, why) in enumerate(res):
         ck.ob('R-PAIR-mirror', '%s/site-%d' % (GAUSS, i), ok, ck.site(GAUSS, node), why, sample={'primary': hir.pp(node), 'line': hir.line(node)})
     ck.floor('R-PAIR-mirror', len(res), 5)
-    bad = d2_writes(f)
+    bad = d2_writes(f, facts)
     ck.ob('R-WRITE', GAUSS + '/only-row_add', not bad, ck.site(GAUSS, bad[0][1]) if bad else ck.site(GAUSS),
           'gauss_helper mutates the matrix other than through row_add: %s' % '; '.join('%s %s' % (k, hir.pp(n)[:60]) for k, n in bad[:3]),
           sample={'other_writes': len(bad)})
@@ -619,11 +651,11 @@ def run(ck):
     inv = 'linalg::Mat2::inverse'
     res, somes = d3_inverse(ck.fn(inv))
     for i, (ok, p, why) in enumerate(res):
-        ck.ob('R-PATH', inv + '/some-%d' % i, ok, ck.site(inv), why, sample={'conds': p.cond_texts(), 'returns': hir.pp(p.ret)})
+        ck.ob3('R-PATH', inv + '/some-%d' % i, ok, ck.site(inv), why, sample={'conds': p.cond_texts(), 'returns': hir.pp(p.ret)})
     ck.floor('R-PATH', somes, 1)
     for key, ref in ADD_REF.items():
         d = addop_descriptor(ck.fn(key))
-        ck.ob('R-SIB-rowcol', key, d == ref, ck.site(key), 'descriptor %s differs from the reference %s (trait doc: add the first index INTO the second, over the full other dimension)' % (d, ref),
+        ck.ob3('R-SIB-rowcol', key, None if d is None else d == ref, ck.site(key), ('descriptor %s differs from the reference %s (trait doc: add the first index INTO the second, over the full other dimension)' % (d, ref)) if d is not None else 'the body is not the recognised single `for i in 0..n { self.d[a][b] ^= self.d[c][d] }` loop',
               sample={'descriptor': str(d)})
     # swap ops: row_swap swaps rows p1,p2 of d; col_swap swaps [c0],[c1] in every row
     rs = ck.fn('<linalg::Mat2 as linalg::RowOps>::row_swap')
@@ -648,7 +680,7 @@ def run(ck):
         if hir.calls_to(fm['hir'], 'linalg::Mat2::build'):
             nref += 1
             d = matmul_descriptor(fm)
-            ck.ob('R-TABLE-matmul', key, d == MATMUL_REF, ck.site(key), 'reference Mul impl is not the F2 matrix product (descriptor %s)' % (d,), sample={'descriptor': str(d)})
+            ck.ob3('R-TABLE-matmul', key, None if d is None else d == MATMUL_REF, ck.site(key), ('reference Mul impl is not the F2 matrix product (descriptor %s)' % (d,)) if d is not None else 'the product is not written as build(rows, cols, |x, y| { for i in .. { acc ^= self.d[x][i] & rhs.d[i][y] } })', sample={'descriptor': str(d)})
         else:
             ok, why, summ = rops.check_impl(fm, op, is_assign, ordered=('Sub', 'Div', 'Mul'))    # matrix multiplication does not commute
             ck.ob('R-OPS', key, ok, ck.site(key), why, sample={'applications': summ})
